@@ -21,8 +21,10 @@ def _summary(d):
 def run(ctx):
     ctx.prepare()
     ctx.obligations("NGF.Props.C16")
+    ctx.obligations("NGF.Props.C16Pipeline")
     if ctx.tier == "thorough":
         ctx.leanchecker("NGF.Props.C16")
+        ctx.leanchecker("NGF.Props.C16Pipeline")
 
     n_pipe, n_loop = (1200, 300) if ctx.tier == "quick" else (24000, 6000)
 
@@ -104,6 +106,90 @@ def run(ctx):
                 ctx.broken(f"model and implementation disagree on case {d['id']} ({d['kind']}): {o[:400]}",
                            replay={"case": _summary(d), "diff": o[:2000]})
 
+    # ---- pipeline level: Model/PipelineTls.genT against the REAL http.conf + the REAL secret files, on C02's fragment
+    # scenarios extended with HTTPS listeners / Secrets / ReferenceGrants (harness/c16/fragment.go)
+    n_frag = 1500 if ctx.tier == "quick" else 30000
+    frag = ctx.harness(["-mode", "frag", "-seed", ctx.seed * 31 + 5, "-n", n_frag]) or []
+    fouts = ctx.driver("pipeline", frag) if frag else []
+    fr = collections.Counter()
+    fr_stats = collections.Counter()
+    fr_res = collections.Counter()
+    fr_tags = collections.Counter()
+    fr_why = collections.Counter()
+    fr_nontrivial = set()
+    fr_samples = []
+    fdiffs = 0
+    if not frag:
+        ctx.broken("pipeline-level stream (mode frag) produced no lines")
+    if len(fouts) != len(frag):
+        ctx.broken(f"pipeline driver answered {len(fouts)} lines for {len(frag)} cases")
+    for l, o in zip(frag, fouts):
+        d = json.loads(l)
+        for t, c in (d.get("tags") or {}).items():
+            if t.startswith("tls:"):
+                fr_tags[t[4:]] += c
+        if d.get("panic"):
+            fr["panic"] += 1
+            panics[d["panic"]] += 1
+            continue
+        try:
+            r = json.loads(o)
+        except Exception:
+            r = {"error": o[:300]}
+        if "inFragment" not in r:
+            fr["bad-op"] += 1
+            fdiffs += 1
+            if fdiffs <= 3:
+                ctx.broken(f"pipeline driver could not evaluate fragment case {d['id']}: {o[:300]}")
+            continue
+        if not r["inFragment"]:
+            fr["outside-fragment"] += 1
+            fr_why[r.get("why", "")[:80]] += 1
+            continue
+        fr["in-fragment"] += 1
+        bad = []
+        if not r["confEqual"]:
+            bad.append("http.conf: " + r["confDiff"])
+        if not r["filesEqual"]:
+            bad.append("secret files: " + r["filesDiff"])
+        if r["thmFail"]:
+            bad.append("theorem (executed): " + r["thmFail"])
+        st = r["stats"]
+        for k, v in st.items():
+            if k == "res":
+                for x in v:
+                    fr_res[x] += 1
+            else:
+                fr_stats[k] += v
+        fr_stats["theorem_instances_executed"] += r["thmChecks"]
+        if st["sslServers"] > 0:
+            fr["with-ssl-server"] += 1
+            g = (d["flat"].get("gws") or [])
+            fr_nontrivial.add(hashlib.sha1(json.dumps([g, d["flat"].get("routes"), d["flat"].get("grants")], sort_keys=True).encode()).hexdigest())
+        if st["contested"] > 0:
+            fr["with-contested-hostname"] += 1
+        if st["conflicted"] > 0:
+            fr["with-port-conflict"] += 1
+        if len(fr_samples) < 3 and st["sslServers"] > 1:
+            fr_samples.append({"id": d["id"], "listeners": [
+                {k: x[k] for k in ("name", "port", "proto", "host", "certs", "from")}
+                for gw in d["flat"]["gws"] if gw["name"] == "gw" for x in gw["listeners"]], "stats": st})
+        if bad:
+            fr["DIVERGES"] += 1
+            fdiffs += 1
+            if fdiffs <= 3:
+                ctx.broken(f"pipeline model genT and the real configuration disagree on fragment case {d['id']}: " + " ;; ".join(bad)[:600],
+                           replay={"case_id": d["id"], "tags": d.get("tags"), "diff": bad,
+                                   "gateways": d["flat"].get("gws"), "routes": d["flat"].get("routes"),
+                                   "grants": d["flat"].get("grants"),
+                                   "secrets": [{k: x[k] for k in ("ns", "name", "type", "pairOK")} for x in d.get("secrets") or []],
+                                   "secret_files": [x["path"] for x in d.get("sfiles") or []],
+                                   "reproduce": f"harness/cmd/c16 -mode frag -seed {ctx.seed * 31 + 5} -n {n_frag} -only {d['id']}"})
+        else:
+            fr["equal"] += 1
+    if frag and fr["in-fragment"] < len(frag) // 2:
+        ctx.broken(f"only {fr['in-fragment']} of {len(frag)} generated fragment cases are inside the fragment: {dict(fr_why)}")
+
     # ---- coverage
     tags = collections.Counter()
     kinds = collections.Counter()
@@ -136,7 +222,18 @@ def run(ctx):
         samples.append(_summary(d))
 
     ctx.finish({
-        "evaluations": len(lines) + len(loop),
+        "evaluations": len(lines) + len(loop) + len(frag),
+        "pipeline_level": {
+            "cases": len(frag), "verdicts": dict(fr), "outside_fragment_reasons": dict(fr_why),
+            "distinct_with_ssl_server": len(fr_nontrivial),
+            "rule": "fragment cases (C02's fragment generator + HTTPS listeners / Secrets / ReferenceGrants) run through the real "
+                    "BuildGraph -> BuildConfiguration -> Generate; the real http.conf (plain servers, SSL servers with "
+                    "ssl_certificate path and locations, default servers) and the real files of /etc/nginx/secrets must equal "
+                    "PipelineTls.genT of the fragment view after order normalisation; distinct = distinct (gateways, routes, "
+                    "grants) with at least one SSL server",
+            "totals": dict(fr_stats), "secret_resolution_kinds": dict(fr_res), "generator_branches": dict(sorted(fr_tags.items())),
+            "samples": fr_samples,
+        },
         "pipeline_cases": len(lines),
         "direct_calls": len(loop),
         "distinct_nontrivial": len(nontrivial),
@@ -144,8 +241,8 @@ def run(ctx):
                 "the Lean model; non-trivial = distinct (listeners, policies, grants, rule backends, accepted hostnames) "
                 "whose real output has at least one certificate-bearing SSL server or one backend with VerifyTLS",
         "samples": samples,
-        "traces_validated_against_impl": (len(lines) - diffs) + (len(loop) - ldiffs),
-        "correspondence_diffs": diffs + ldiffs,
+        "traces_validated_against_impl": (len(lines) - diffs) + (len(loop) - ldiffs) + fr["equal"],
+        "correspondence_diffs": diffs + ldiffs + fdiffs,
         "judge_verdicts": dict(judge_hist),
         "judge_signatures": dict(sig_hist),
         "model_verdicts": dict(model_hist),
@@ -159,9 +256,11 @@ def run(ctx):
         "panics": dict(panics),
     }, assumptions=[
         "X.509 / PEM parsing (crypto/tls.X509KeyPair, validateCA) is a scenario bit computed with Go's crypto libraries",
-        "listener validity for reasons other than the certificate reference (port, protocol conflict, route kinds) is taken "
-        "from the real graph (C07's subject); route attachment (which routes are attached to which listener) is taken from "
-        "the real graph (C02's subject)",
+        "decision-core level (TlsBind): listener validity for reasons other than the certificate reference (port, protocol "
+        "conflict, route kinds) and route attachment are taken from the real graph; pipeline level (PipelineTls.genT): both are "
+        "MODELLED (HTTP/HTTPS port conflict, attachment by parentRef/sectionName/allowedRoutes/hostname intersection) inside "
+        "the fragment of Model/Pipeline.lean (HTTPRoutes, Exact/PathPrefix matches, listeners with From=All/Same, mode "
+        "Terminate, no TLS options)",
         "NGINX: server_name selection and ssl_certificate loading as modelled by NGF.Nginx (lexer/parser are trusted base)",
         "admissible Gateways do not repeat a (port, hostname) pair among HTTPS listeners (API server CEL rule); such inputs "
         "are generated but any of the tied owners is accepted",
